@@ -595,6 +595,10 @@ package jrpc2
 //@   ensures[C08:removed-only-when-settled] forall(k string, old(in(s.call, k)) && !in(s.call, k) ==> chansends(old(lookup(s.call, k)).ch) >= 1)
 //@   fresh result
 //@   ensures[C03:barrier-before-dispatch] called("call.waitForBarrier#1") && result != nil
+// The batch's ids are reserved in the critical section that dequeued it: the
+// barrier wait drops the lock, and a stop in that window must already find the
+// reservations to cancel.
+//@   at call.waitForBarrier#1 assert[C08:reserved-before-lock-dropped] called("call.checkAndAssignLocked#1")
 //@   ensures[C08:relocked] held(s.mu) && Server_mu_inv(s) && s.callID >= old(s.callID)
 
 // The dispatcher: runs the runnable tasks (the last one inline, the others in
